@@ -201,6 +201,45 @@ GEN(int) @G(s @Name, ids @IDs, ix @Index) {
 	}
 	RETURN
 }`, Drives: []Drive{gen("int", "@G", `"h\xffé", @IDs{7, 8}, @Index{"a": 2, "bcd": 3}`)}},
+	{Name: "IteratorTypePositions2", Props: []string{"C06", "C11"}, Src: `
+// more positions of the iterator type: an alias, a channel element, a pointer, a function type's result and
+// parameter, a generic container instantiated with it, an interface method, a conversion, a type assertion
+type @IntIter = ITER(int)
+type @Src interface{ Open(n int) ITER(int) }
+type @Box[T any] struct{ v T }
+type @nat struct{}
+GEN(int) @Nat(n int) {
+	for i := 0; i < n; i++ { YIELD(i) }
+	RETURN
+}
+func (@nat) Open(n int) ITER(int) { return GENCALL(int, @Nat, n) }
+func @sum(it @IntIter) int {
+	s := 0
+	RANGEITER(v, :=, it) { s += v }
+	return s
+}
+func @apply(f func(ITER(int)) int, mk func(int) ITER(int), n int) int { return f(mk(n)) }
+func @F(n int) int {
+	var src @Src = @nat{}
+	t := @sum(src.Open(n))
+	ch := make(chan ITER(int), 1)
+	ch <- src.Open(n)
+	t += 10 * @sum(<-ch)
+	it := src.Open(n)
+	p := &it
+	t += 100 * @sum(*p)
+	t += 1000 * @apply(@sum, src.Open, n)
+	b := @Box[ITER(int)]{v: src.Open(n)}
+	t += 10000 * @sum(b.v)
+	var any1 any = src.Open(n)
+	if it2, ok := any1.(ITER(int)); ok {
+		t += 100000 * @sum(it2)
+	}
+	var alias @IntIter = src.Open(2)
+	RANGEITER(v, :=, alias) { t += v }
+	return t
+}`, Drives: []Drive{fn("int", "@F", "3")}},
+
 	{Name: "RangeBodyRedeclares", Props: []string{"C04", "C03"}, Src: `
 // the body of a range statement is its own block: it may redeclare the range variables, and closures made
 // before the redeclaration keep seeing the range variables
